@@ -13,7 +13,7 @@ THEOREMS = ['Ndt.limit_exact_on_polynomials', 'Ndt.limitExtrapolate_length', 'Nd
             'Ndt.limit_keeps_finite_values', 'Ndt.callLim_fills_in_order', 'Ndt.callLim_all_some', 'Ndt.richardson_annihilates',
             'Ndt.richNodes_nodup_real', 'Ndt.richNodes_nodup_complex']
 EPS = 2.0 ** -52
-K_EST, FLOOR = 1000.0, 1e-5            # calibrated on the unchanged tree: worst err/(est + 1e-7*scale) ~ 1 over 5800 cases
+K_EST, FLOOR = 1000.0, 1e-11           # unchanged tree: err <= 1000 est in every one of 6000 cases (no floor needed); 1e-11 relative for rounding
 KERN = {'sinc': lambda w: np.sin(w) / w, 'expm1': lambda w: np.expm1(w) / w, 'log1p': lambda w: np.log1p(w) / w,
         'wsin': lambda w: w / np.sin(w), 'tan': lambda w: np.tan(w) / w}
 G = {'exp': np.exp, 'poly': lambda z: 1 + 2 * z - 0.5 * z ** 2 + 0.25 * z ** 3, 'cos': lambda z: np.cos(z) + 2, 'rat': lambda z: 1 / (4 + z * z)}
@@ -185,6 +185,7 @@ def run(ctx):
                           'order 1..8, step_ratio 2..16; Residue of g(z)/(z-z0)^p, p = 1,2,3; bound |result - g(z0)| <= 1000 * error_estimate + 1e-6 * '
                           '(1 + |g(z0)|); distinct = distinct configuration')
     worst = 0.0
+    excess = [0.0]
     for it in range(ctx.budget(300, 4000) * (2 if (ctx.broken or ctx.mismatches) else 1)):
         gname = rng.choice(list(G))
         g = G[gname]
@@ -200,8 +201,6 @@ def run(ctx):
             mk = lambda: Residue(f, pole_order=p, method=method, full_output=True, path=path, step_ratio=ratio)
         else:
             kname = rng.choice(list(KERN))
-            if kname == 'log1p' and method == 'below' and path == 'radial' and not cplx:
-                kname = 'sinc'
             s = KERN[kname]
             order = rng.randint(1, 8)
             f = lambda z: g(z) * s(z - z0)
@@ -221,10 +220,17 @@ def run(ctx):
         err = abs(v - exact)
         bound = K_EST * est + FLOOR * (1 + abs(exact))
         worst = max(worst, err / bound) if bound > 0 else worst
+        excess[0] = max(excess[0], (err - K_EST * est) / (1 + abs(exact))) if err == err else excess[0]
+        if v != v and rep.get('kernel') == 'log1p' and method == 'below' and path == 'radial' and not cplx:
+            # recorded finding: so many of the steps leave the domain of log1p (w <= -1) that no finite estimate is left
+            ctx.violation('Limit returns NaN: the steps from below leave the domain of the kernel', got=str(v), exact=str(exact),
+                          signature='C18-steps-leave-domain-nan', **rep)
+            continue
         if not err <= bound:
             ctx.violation('%s does not recover g(z0) within the reported error estimate' % rep['kind'], got=str(v), exact=str(exact), error=err,
                           error_estimate=est, **rep)
-    ctx.notes.append('worst err / (1000 est + 1e-5 scale) on this run: %.3g' % worst)
+    ctx.notes.append('worst err / (1000 est + 1e-11 scale) on this run: %.3g' % worst)
+    ctx.notes.append('largest (err - 1000 est) / (1 + |g(z0)|): %.3g' % excess[0])
     ctx.assumptions.append('truncation for non-polynomial kernels and rounding are explored, not proved; the selection stage on complex data is '
                            'covered by the search only')
 
